@@ -627,7 +627,7 @@ int harness_main(int argc, char **argv, const Harness &h) {
 			}
 			Plan p = gen_plan(prop, tier, cls, run_seed(base, prop, idx));
 			Result r;
-			watchdog(25);	// a run that burns 25 s of CPU (or 250 s of wall time) kills the worker; the driver replays the seed
+			watchdog(tier == "thorough" ? 90 : 25);	// a run that burns 25 s of CPU (90 s in the thorough tier, whose plans are several times longer), or ten times that in wall time, kills the worker; the driver replays the seed
 			run_inproc(p, false, r);
 			watchdog(0);
 			runs++;
